@@ -242,3 +242,85 @@ def run_in_thread(fn, stack_frames=1000):
     if "exc" in box:
         raise box["exc"]
     return box.get("value")
+
+
+def run_concurrently(fns, switches, roots, stack_frames=1000, log=None):
+    """Several client threads on one program, under a scheduler the scenario decides.
+
+    Each callable gets a real thread, but only one of them runs at any time: a thread keeps the baton until the global
+    count of line events in the code under test (files under `roots`, seen through sys.settrace) reaches one of
+    `switches`; then the next live thread continues from where it was parked.  Which thread runs when is therefore a
+    function of the scenario alone.  Returns [("ok", value) | ("raise", exc)] per callable.  A thread that blocks for good
+    inside the code under test (a lock held by a parked thread) stops the run: the per-run wall cap reports it.
+    """
+    import threading
+    n = len(fns)
+    batons = [threading.Event() for _ in fns]
+    done = [False] * n
+    results = [None] * n
+    state = {"step": 0}
+    sw = set(int(x) for x in switches)
+    finished = threading.Event()
+    saved = sys.getrecursionlimit()
+    roots = tuple(roots)
+
+    def next_live(i):
+        for k in range(1, n + 1):
+            j = (i + k) % n
+            if not done[j]:
+                return j
+        return None
+
+    def point(i):
+        state["step"] += 1
+        if state["step"] in sw:
+            j = next_live(i)
+            if j is not None and j != i:
+                if log is not None:
+                    log.emit("switch", at=state["step"], frm=i, to=j)
+                batons[i].clear()
+                batons[j].set()
+                batons[i].wait()
+
+    def make_trace(i):
+        def tracer(frame, event, arg):
+            if not frame.f_code.co_filename.startswith(roots):
+                return None
+            if event == "line":
+                point(i)
+            return tracer
+        return tracer
+
+    def body(i):
+        batons[i].wait()
+        depth = 0
+        f = sys._getframe()
+        while f is not None:
+            depth += 1
+            f = f.f_back
+        sys.setrecursionlimit(depth + stack_frames)
+        sys.settrace(make_trace(i))
+        try:
+            results[i] = ("ok", fns[i]())
+        except BaseException as exc:  # noqa - handed to the caller
+            results[i] = ("raise", exc)
+        finally:
+            sys.settrace(None)
+            done[i] = True
+            j = next_live(i)
+            if log is not None:
+                log.emit("client-done", client=i, outcome=results[i][0] if results[i] else "?")
+            if j is None:
+                finished.set()
+            else:
+                batons[j].set()
+
+    threads = [threading.Thread(target=body, args=(i,), name="mpsim-client-%d" % i, daemon=True) for i in range(n)]
+    for t in threads:
+        t.start()
+    batons[0].set()
+    finished.wait()
+    for t in threads:
+        t.join()
+    sys.setrecursionlimit(saved)
+    return results
